@@ -20,7 +20,7 @@ MANIFEST = dict(
 MODULE = "IwModel.Props.C10"
 THEOREMS = ["IwModel.C10." + n for n in (
     "alloc_fresh", "alloc_aligned", "alloc_len", "alloc_solid", "dealloc_guard", "guarded_of_overlap",
-    "dealloc_strict_refuses", "dealloc_exact", "realloc_inv")]
+    "dealloc_strict_refuses", "dealloc_exact", "realloc_inv", "realloc_fresh")]
 
 
 def gen_invalid(r, cfg):
